@@ -492,15 +492,23 @@ def run_c30(run):
     vlib.sany(SK, "Skiplist")
     vlib.sany(SK, "SkiplistTrace")
     bugs(run, "Skiplist", "Skiplist", [("Bug_NoHelp.cfg", ["FinalOK"]), ("Bug_PrevBeforeNext.cfg", ["FinalOK", "ReadersSeeOrderedSubset", "NoLoss", "ReaderView"])])
-    design(run, "Skiplist", "Skiplist", "Skiplist.cfg", "Skiplist(K=3 inserters, heights 2,1,2, distinct keys, 2 levels) exhaustive",
-           must_cover=["FindLevel", "NewNode", "ReadNP", "ReadPN", "Help", "CasNext", "CasPrev", "Refind"])
-    design(run, "Skiplist", "Skiplist", "SkiplistDup.cfg", "Skiplist(K=3, keys 1,2,1: duplicate) exhaustive")
+    hk = hooks_present()
+    dots = {}
+    for cfgname, label, text in (("Skiplist.cfg", "distinct", "Skiplist(K=3 inserters, heights 2,1,2, distinct keys, 2 levels) exhaustive"),
+                                 ("SkiplistDup.cfg", "dup", "Skiplist(K=3, keys 1,2,1: duplicate) exhaustive")):
+        wd = vlib.scratch("verif.skg.")
+        want_dot = hk and (label == "distinct" or not quick)
+        r = design(run, "Skiplist", "Skiplist", cfgname, text + (" + state graph dump" if want_dot else ""), workdir=wd, heap="8g",
+                   dump_dot=(os.path.join(wd, "graph.dot") if want_dot else None),
+                   must_cover=["FindLevel", "NewNode", "ReadNP", "ReadPN", "Help", "CasNext", "CasPrev", "Refind"] if label == "distinct" else None)
+        if want_dot:
+            dots[label] = os.path.join(wd, "graph.dot")
     if not quick:
         design(run, "Skiplist", "Skiplist", "SkiplistReader.cfg", "Skiplist(K=3 + one reader walking level 0 forward then backward) exhaustive")
         design(run, "Skiplist", "Skiplist", "Skiplist4.cfg", "Skiplist(K=4, heights 2,1,2,1, keys 2,1,3,2) exhaustive", timeout=1700, heap="10g")
     binp = vlib.build_driver("internal/arenaskl", name="proto_arenaskl")
     out = vlib.scratch("verif.sk.")
-    env = dict(VERIF_OUT=out, VERIF_SEED=str(run.seed), VERIF_ROUNDS=str(45 if quick else 900), VERIF_THREADS="6", VERIF_KEYS="120",
+    env = dict(VERIF_OUT=out, VERIF_SEED=str(run.seed), VERIF_ROUNDS=str(36 if quick else 900), VERIF_THREADS="6", VERIF_KEYS="120",
                VERIF_READERS="2", VERIF_PROBE_LEN=str(4 if quick else 6))
     st, _ = drive(binp, "TestVProtoSkiplist(Explore|InserterProbe)$", env)
     # ---- concurrent exploration, judged by TLC
@@ -586,7 +594,7 @@ def run_c30(run):
     run.sample({"round": e0["round"], "testing": e0["testing"], "first_adds[thread,key,res,start,done]": e0["list"][:12]})
     # ---- mode C (forced schedules through internal/verifhook) when the hook package exists
     try:
-        c30_forced(run, binp)
+        c30_forced(run, dots)
     except vlib.Inconclusive as ex:
         if "hooks missing" not in str(ex):
             raise
@@ -602,7 +610,7 @@ def run_c30(run):
     ]
 
 
-def c30_forced(run, binp):
+def c30_forced(run, dots):
     """mode C: TLC schedules forced through verifhook Points; exploration with random release order"""
     if not hooks_present():
         raise vlib.Inconclusive("hooks missing: %s/internal/verifhook does not exist (apply /verif/hooks/proto.patch)" % vlib.REPO)
@@ -613,16 +621,15 @@ def c30_forced(run, binp):
     hbin = vlib.build_driver("internal/arenaskl", name="proto_arenaskl_hooks", tags="verif,verifhooks")
     res = {}
     for cfgname, heights, keys, label in (("Skiplist.cfg", "2,1,2", "1,2,3", "distinct"), ("SkiplistDup.cfg", "2,1,2", "1,2,1", "dup")):
-        wd = vlib.scratch("verif.skg.")
-        dot = os.path.join(wd, "graph.dot")
-        r = vlib.tlc(SK, "Skiplist", cfgname, workers=W, timeout=1500, dump_dot=dot, workdir=wd, heap="8g")
-        if not r.ok:
-            raise vlib.Inconclusive("Skiplist graph dump failed: %s\n%s" % (r.violation, r.out[-1500:]))
+        if label not in dots:
+            continue
+        dot = dots[label]
+        wd = os.path.dirname(dot)
         init, succ, _ = load_graph(dot)
         npaths, memo = count_paths(init, succ)
         nedges = sum(len(v) for v in succ.values())
         if quick:
-            paths = sample_paths(init, succ, memo, 1200 if label == "distinct" else 500, rng)
+            paths = sample_paths(init, succ, memo, 600, rng)
             sel = "seeded uniform sample of maximal paths"
         else:
             paths = edge_cover(init, succ, rng)
@@ -636,7 +643,7 @@ def c30_forced(run, binp):
                 o.write(json.dumps([parse_label(x) for x in p]) + "\n")
         out = vlib.scratch("verif.skh.")
         env = dict(VERIF_OUT=out, VERIF_SEED=str(run.seed), VERIF_SK_HEIGHTS=heights, VERIF_SK_KEYS=keys, VERIF_SK_LEVELS="2",
-                   VERIF_SCHEDULES=sf, VERIF_EXPLORE=str(1500 if quick else 30000))
+                   VERIF_SCHEDULES=sf, VERIF_EXPLORE=str(900 if quick else 30000))
         st, _ = drive(hbin, "TestVProtoSkiplistHooks", env)
         consts = dict(SK_CONSTS)
         if label == "dup":
@@ -646,7 +653,7 @@ def c30_forced(run, binp):
         rx = two_stage(run, SK, "SkiplistTrace", consts, os.path.join(out, "sklhook_explore.ndjson"), ("final",), "C30-hookexplore-" + label, is_start)
         if (rf["drift"] or rx["drift"]) and not (rf["violated"] or rx["violated"]):
             out2 = vlib.scratch("verif.skh2.")
-            env2 = dict(env, VERIF_OUT=out2, VERIF_SCHEDULES="", VERIF_EXPLORE=str(8000 if quick else 80000), VERIF_SEED=str(run.seed + 104729))
+            env2 = dict(env, VERIF_OUT=out2, VERIF_SCHEDULES="", VERIF_EXPLORE=str(5000 if quick else 80000), VERIF_SEED=str(run.seed + 104729))
             st2, _ = drive(hbin, "TestVProtoSkiplistHooks", env2)
             two_stage(run, SK, "SkiplistTrace", consts, os.path.join(out2, "sklhook_explore.ndjson"), ("final",), "C30-hookfallback-" + label, is_start)
             st["fallback_explore_runs"] = st2["hook_explore_runs"]
